@@ -381,7 +381,7 @@ impl SubCheck for Faults {
 		"faults"
 	}
 	fn cases(&self, tier: Tier) -> u32 {
-		tier.pick(12_000, 300_000)
+		tier.pick(150_000, 3_000_000)
 	}
 	fn strategy(&self, tier: Tier) -> BoxedStrategy<C09Case> {
 		let pre = prop_oneof![
